@@ -1021,7 +1021,7 @@ fn case_job(kind: u64, seed: u64, tier: String, base: Vec<Op>) -> impl FnOnce(&N
     move |names, emit| {
         let mut fz = Fz { rng: SplitMix64(seed), ex: Exec::new(names), recent: vec![] };
         let thorough = tier == "thorough";
-        let nbat = if kind == 5 { 25 } else if thorough { 160 } else { 70 };
+        let nbat = if kind == 5 || kind == 6 { 25 } else if thorough { 160 } else { 70 };
         macro_rules! go {
             ($s:expr) => {{
                 let s = $s;
@@ -1071,6 +1071,66 @@ fn case_job(kind: u64, seed: u64, tier: String, base: Vec<Op>) -> impl FnOnce(&N
                     }
                     let s = fz.load_step();
                     go!(s);
+                }
+            }
+            6 => {
+                // many siblings ordered by INDEX: two SUB-CONTAINERS lists with 21..40 ECUC-CONTAINER-VALUEs whose INDEX values mix
+                // one-digit, two-digit, equal, missing and > u64::MAX numbers (the INDEX pattern allows them; slice::sort_by uses
+                // insertion sort up to 20 items and panics on an inconsistent order beyond that), then sort / cmp / sort_model
+                const FIXED: [&str; 21] = ["17", "15", "16", "8", "18446744073709552469", "18446744073709551673", "18446744073709551616", "14", "9", "7",
+                    "18446744073709552532", "5", "11", "10", "15", "18446744073709552577", "2", "9", "13", "16", "18446744073709552051"];
+                macro_rules! mk {
+                    ($op:expr) => {{
+                        let h = fz.ex.handles.len();
+                        go!(Step::O($op));
+                        if fz.ex.handles.len() == h {
+                            return;
+                        }
+                        h
+                    }};
+                }
+                go!(Step::O(Op::NewModel));
+                go!(Step::O(Op::CreateFile(0, b"f0.arxml".to_vec(), 0x100000)));
+                let pk = mk!(Op::CreateSub(0, elidx(names, "AR-PACKAGES")));
+                let p1 = mk!(Op::CreateNamed(pk, elidx(names, "AR-PACKAGE"), b"p1".to_vec()));
+                let el = mk!(Op::CreateSub(p1, elidx(names, "ELEMENTS")));
+                let cfg = mk!(Op::CreateNamed(el, elidx(names, "ECUC-MODULE-CONFIGURATION-VALUES"), b"Config".to_vec()));
+                let cs = mk!(Op::CreateSub(cfg, elidx(names, "CONTAINERS")));
+                let mut lists = vec![];
+                for g in 0..2u64 {
+                    let cv = mk!(Op::CreateNamed(cs, elidx(names, "ECUC-CONTAINER-VALUE"), format!("Values{}", g).into_bytes()));
+                    let sc = mk!(Op::CreateSub(cv, elidx(names, "SUB-CONTAINERS")));
+                    lists.push(sc);
+                    let n = if g == 0 { 21 } else { 21 + fz.rng.below(20) as usize };
+                    let rot = fz.rng.below(21) as usize;
+                    for i in 0..n {
+                        let value: Option<String> = if g == 0 && fz.rng.below(8) != 0 {
+                            Some(FIXED[(i + if fz.rng.below(2) == 0 { 0 } else { rot }) % 21].to_string())
+                        } else {
+                            match fz.rng.below(10) {
+                                0 => None,
+                                1 | 2 | 3 => Some((2 + fz.rng.below(8)).to_string()),
+                                4 | 5 | 6 => Some((10 + fz.rng.below(8)).to_string()),
+                                7 => Some("9".to_string()),
+                                _ => Some(format!("1844674407370955{}", 1616 + fz.rng.below(1000))),
+                            }
+                        };
+                        let c = mk!(Op::CreateNamed(sc, elidx(names, "ECUC-CONTAINER-VALUE"), format!("C{}_{}", g, i).into_bytes()));
+                        if let Some(v) = value {
+                            let ix = mk!(Op::CreateSub(c, elidx(names, "INDEX")));
+                            go!(Step::O(Op::SetCData(ix, Val::S(v.into_bytes()))));
+                        }
+                    }
+                }
+                for sc in &lists {
+                    go!(Step::O(Op::CmpKids(*sc)));
+                    go!(Step::O(Op::Sort(*sc)));
+                }
+                go!(Step::O(Op::SortModel(0)));
+                go!(Step::O(Op::SerializeFile(0)));
+                go!(Step::O(Op::Duplicate(0)));
+                if fz.ex.models.len() > 1 {
+                    go!(Step::O(Op::SortModel(1)));
                 }
             }
             5 => {
@@ -1251,7 +1311,7 @@ fn fuzz_main(args: &[String]) {
             let s = &base_scripts[((k / 3) as usize) % base_scripts.len()];
             (0u64, s.2.clone())
         } else {
-            (1 + (k % 5), vec![])
+            (1 + (k % 6), vec![])
         };
         *kinds.entry(kind).or_insert(0) += 1;
         let (_lines, finds, n, okerr) = run_case(&dump, case_job(kind, cseed, tier.clone(), base), 3000);
